@@ -19,7 +19,9 @@ TECHNIQUE = (
 )
 LEVEL_TEXT = (
     "Histories of 8-30 operations over 1-4 Task objects covering all 16 combinations of restart_after_reconnect x wait_for_connection x "
-    "wait_before_start {0,>0} x repeat_after {None,value}, sync / async / never-ending targets, operations at the same instant (with and "
+    "wait_before_start {0,>0} x repeat_after {None,value}, sync / async / never-ending targets that propagate cancellation, swallow it and "
+    "return (at once / after one more await), re-arm their own task via start_task or remove it via remove_task from inside, raise, or "
+    "finish exactly in the instant of a state change; operations at the same instant (with and "
     "without a loop turn in between), just before / after the wait_before_start expiry, CONNECTED/CONNECTING/DISCONNECTED transitions, "
     "registry stop followed by further state changes. Exploration: histories are sampled."
 )
@@ -29,7 +31,9 @@ LEVEL_NOTE = (
     "instance and makes no target call until the next CONNECTED; each CONNECTED transition (and each start_task while connected) gives "
     "exactly one new instance whose target is entered (exactly once without repeat_after); remove_task/stop leave nothing pending and no "
     "later target call. Not judged: anything after an explicit start_task while not connected until the next CONNECTED transition; "
-    "repeat timing; targets that await during cancellation clean-up (recorded); windows whose outcome depends on the order of two timers "
+    "repeat timing; targets that await during cancellation clean-up (recorded); an instance that swallowed its cancellation or cancelled "
+    "itself from inside is given the grace of its own remaining awaits for the nesting rule only (everything created after the cancel "
+    "is tracked and must be gone after the next loss/remove/stop); windows whose outcome depends on the order of two timers "
     "expiring at the same instant."
 )
 SHARDS = {"quick": 1, "thorough": 16}
@@ -40,36 +44,81 @@ OPTION_SETS = list(itertools.product((False, True), (False, True), (0, 1), (0, 1
 
 
 class Probe:
-    """Instrumented target of one Task."""
+    """Instrumented target of one Task.
 
-    def __init__(self, idx: int, kind: str, dur, log: list, slow_cleanup: bool) -> None:
+    behaviour: None (propagates cancellation, never touches the registry) | "swallow" (catches CancelledError and returns at
+    once) | "swallow_await" (catches it, awaits one more loop turn, returns) | "rearm" (calls start_task(own task) from inside
+    the target, once per driver start) | "selfremove" (calls remove_task(own task) from inside, once per driver start) |
+    "raises" (ends with an ordinary exception).
+    """
+
+    def __init__(self, idx: int, kind: str, dur, log: list, slow_cleanup: bool, behaviour: str | None = None) -> None:
         self.idx = idx
         self.kind = kind
         self.dur = dur
         self.log = log
         self.alive = 0
-        self.max_alive = 0
+        self.in_grace = 0  # instances that swallowed a cancellation and are finishing their own remaining awaits
         self.slow_cleanup = slow_cleanup
+        self.behaviour = behaviour
+        self.budget = 0
+        self.registry = None
+        self.task = None
+
+    def _now(self) -> float:
+        try:
+            self._last = asyncio.get_running_loop().time()
+        except RuntimeError:  # coroutine closed while the loop is being torn down
+            pass
+        return getattr(self, "_last", 0.0)
 
     def _enter(self) -> None:
         self.alive += 1
-        self.max_alive = max(self.max_alive, self.alive)
-        self.log.append((asyncio.get_running_loop().time(), "enter", self.idx, self.alive))
+        self.log.append((self._now(), "enter", self.idx, (self.alive - self.in_grace, self.alive)))
 
     def _exit(self, how: str) -> None:
         self.alive -= 1
-        self.log.append((asyncio.get_running_loop().time(), "exit:" + how, self.idx, self.alive))
+        self.log.append((self._now(), "exit:" + how, self.idx, self.alive))
+
+    def _act(self) -> bool:
+        """What a target does to its own task from inside.  True if it cancelled itself that way."""
+        if self.behaviour in ("rearm", "selfremove") and self.budget > 0 and self.task in self.registry.tasks:
+            self.budget -= 1
+            self.log.append((self._now(), self.behaviour, self.idx, None))
+            if self.behaviour == "rearm":
+                self.registry.start_task(self.task)
+            else:
+                self.registry.remove_task(self.task)
+            return True
+        return False
 
     async def atarget(self) -> None:
         self._enter()
         how = "normal"
+        graced = False
         try:
+            if self._act():
+                # this instance has just cancelled itself; the cancellation reaches it at its next await, one loop turn
+                # after its replacement may already have started: bounded grace, as for a swallowed cancellation
+                graced = True
+                self.in_grace += 1
             if self.dur == "forever":
                 await asyncio.Event().wait()
             elif self.dur:
                 await asyncio.sleep(self.dur)
+            if self.behaviour == "raises":
+                how = "raised"
+                raise ValueError("target failed")
         except asyncio.CancelledError:
             how = "cancelled"
+            if self.behaviour in ("swallow", "swallow_await"):
+                how = "swallowed"
+                if not graced:
+                    graced = True
+                    self.in_grace += 1
+                if self.behaviour == "swallow_await":
+                    await asyncio.sleep(0)
+                return  # ends regularly, like the callback in the repo's own test_reconnect_handling
             if self.slow_cleanup:
                 try:
                     await asyncio.sleep(0.2)
@@ -77,11 +126,18 @@ class Probe:
                     pass
             raise
         finally:
+            if graced:
+                self.in_grace -= 1
             self._exit(how)
 
     def starget(self) -> None:
         self._enter()
-        self._exit("normal")
+        try:
+            self._act()
+            if self.behaviour == "raises":
+                raise ValueError("target failed")
+        finally:
+            self._exit("raised" if self.behaviour == "raises" else "normal")
 
 
 def gen_case(rng: random.Random, index: int) -> dict:
@@ -89,13 +145,23 @@ def gen_case(rng: random.Random, index: int) -> dict:
     tasks = []
     for j in range(ntasks):
         restart, waitc, w, rep = OPTION_SETS[(index + 5 * j) % 16] if j == 0 else rng.choice(OPTION_SETS)
+        behaviour = rng.choices((None, "swallow", "swallow_await", "rearm", "selfremove", "raises"), (52, 12, 9, 12, 7, 8))[0]
+        target = rng.choice(("sync", "async0", "async", "async", "forever"))
+        if behaviour in ("swallow", "swallow_await") and rep:
+            behaviour = None  # a repeating task whose target swallows cancel() can never be stopped: the target's doing
+        if behaviour in ("swallow", "swallow_await"):
+            target = rng.choice(("async", "async", "forever"))  # the cancellation must land inside the target
+        elif behaviour == "raises" and target == "forever":
+            target = "async"
         tasks.append({
             "restart": restart, "wait_conn": waitc,
             "wbs": rng.choice((0.5, 2.0)) if w else 0,
             "repeat": rng.choice((1.0, 3.0)) if rep else None,
-            "target": rng.choice(("sync", "async0", "async", "async", "forever")),
-            "dur": rng.choice((0.3, 4.0)),
-            "slow_cleanup": rng.random() < 0.08,
+            "target": target,
+            # durations on the grid of the operation times: targets also finish exactly in the instant of a state change
+            "dur": rng.choice((0.3, 0.5, 1.0, 2.5, 4.0)),
+            "slow_cleanup": behaviour is None and rng.random() < 0.08,
+            "behaviour": behaviour,
         })
     ops = []
     dts = ((0.0, False), (0.0, True), (0.0, True), (0.1, True), (0.499, True), (0.501, True), (0.5, True), (1.0, True),
@@ -128,15 +194,17 @@ def run_one(ctx, case_seed: str, index: int) -> None:
         tasks = []
         for j, spec in enumerate(case["tasks"]):
             dur = 0 if spec["target"] in ("sync", "async0") else "forever" if spec["target"] == "forever" else spec["dur"]
-            p = Probe(j, spec["target"], dur, log, spec["slow_cleanup"])
+            p = Probe(j, spec["target"], dur, log, spec["slow_cleanup"], spec["behaviour"])
+            p.registry = xknx.task_registry
             probes.append(p)
             tasks.append(Task(
                 name=f"c36-task-{j}", target=p.starget if spec["target"] == "sync" else p.atarget,
                 restart_after_reconnect=spec["restart"], wait_before_start=spec["wbs"],
                 wait_for_connection=spec["wait_conn"], repeat_after=spec["repeat"],
             ))
+        for p, tk in zip(probes, tasks):
+            p.task = tk
         await xknx.start()  # registers the registry's connection callback like XKNX.start() does
-        state = xknx.connection_manager.state
 
         def pending(j: int) -> int:
             return sum(1 for t in asyncio.all_tasks() if t.get_name() == f"c36-task-{j}" and not t.done())
@@ -151,6 +219,7 @@ def run_one(ctx, case_seed: str, index: int) -> None:
             t = loop.time()
             pos = len(log)
             if op["op"] == "start":
+                probes[op["task"]].budget = 1  # the target may act on its own task once per user start
                 xknx.task_registry.start_task(tasks[op["task"]])
             elif op["op"] == "remove":
                 xknx.task_registry.remove_task(tasks[op["task"]])
@@ -178,7 +247,7 @@ def run_one(ctx, case_seed: str, index: int) -> None:
                       "state": xknx.connection_manager.state,
                       "settled": {"pending": [pending(j) for j in range(len(tasks))], "alive": [p.alive for p in probes], "pos": len(log)}})
         xknx.started.clear()
-        return [p.max_alive for p in probes]
+        return None
 
     res = run_case(main, max_vtime=5000.0)
     wit = {"case_seed": case_seed, "index": index, "tasks": case["tasks"],
@@ -189,7 +258,7 @@ def run_one(ctx, case_seed: str, index: int) -> None:
                       f"history aborted: {res.error} deadlock={res.deadlock} budget={res.budget}")
         return
     judge(ctx, case, log, marks, wit)
-    ctx.distinct((tuple((s["restart"], s["wait_conn"], bool(s["wbs"]), bool(s["repeat"]), s["target"]) for s in case["tasks"]),
+    ctx.distinct((tuple((s["restart"], s["wait_conn"], bool(s["wbs"]), bool(s["repeat"]), s["target"], s["behaviour"]) for s in case["tasks"]),
                   "".join((m["op"].get("op") or "?")[0] + str(m["op"].get("task", (m["op"].get("state") or "")[:4])) for m in marks)[:60]))
     ctx.sample({"tasks": case["tasks"][:2], "ops": wit["ops"][:8], "target_events": len(log)}, cap=4)
 
@@ -198,17 +267,36 @@ def judge(ctx, case, log, marks, wit) -> None:
     for j, spec in enumerate(case["tasks"]):
         opt = f"restart={int(spec['restart'])},waitc={int(spec['wait_conn'])},wbs={int(bool(spec['wbs']))},rep={int(bool(spec['repeat']))}"
         ctx.count("optionset_" + opt)
-        recorded_only = spec["slow_cleanup"]
-        # ---- O1: never two instances (target nesting)
-        for (t, kind, idx, alive) in log:
-            if idx == j and kind == "enter":
+        beh = spec["behaviour"]
+        ctx.count("behaviour_" + str(beh))
+        # a target that swallows its cancellation inside a repeating task can never be stopped by one cancel(): that is the
+        # target's doing, not the registry's -> recorded only (like targets that await during clean-up)
+        recorded_only = spec["slow_cleanup"] or (beh in ("swallow", "swallow_await") and spec["repeat"] is not None)
+        transition_times = [m["t"] for m in marks if m["transition"]]
+        # ---- O1: never two instances (target nesting); an instance that swallowed its cancellation and is finishing its own
+        # remaining awaits (bounded grace) does not count, anything created after the cancel does
+        for (t, kind, idx, extra) in log:
+            if idx != j:
+                continue
+            if kind == "enter":
                 ctx.count("target_enters")
-                if alive > 1:
+                live, total = extra
+                if live > 1:
                     if recorded_only:
                         ctx.count("overlap_with_slow_cleanup_recorded")
                     else:
                         ctx.violation("two-instances-of-one-task-running", dict(wit, task=j, t=t - 1000.0),
                                       f"task {j} ({opt}): target entered while a previous call is still running")
+                elif total > 1:
+                    ctx.count("overlap_with_instance_in_cancellation_grace_recorded")
+            elif kind == "exit:swallowed":
+                ctx.count("cancellation_swallowed_then_ended_normally")
+            elif kind == "exit:raised":
+                ctx.count("target_raised")
+            elif kind in ("rearm", "selfremove"):
+                ctx.count(kind + "_from_inside_target")
+            if kind == "exit:normal" and any(abs(t - tt) < 1e-9 for tt in transition_times):
+                ctx.count("target_finished_in_the_instant_of_a_state_change")
         # ---- walk the operations relevant to this task
         registered = False
         stopped = False
@@ -217,13 +305,14 @@ def judge(ctx, case, log, marks, wit) -> None:
         win_start = None  # (pos, t, settle) of the op that opened the current window
         user_disc = False
 
-        def close_window(end_pos, end_t, end_desc, end_index):
+        def close_window(end_pos, end_t, end_desc, end_index, by_target=False):
             """Judge the enters of task j between the window's opening op and `end_pos`."""
             if win_start is None:
                 return
             pos0, t0, i0, wmode, cause = win_start
+            from_target = cause is not None and cause.endswith("-from-target")
             # did the loop get a turn between the opening operation and the closing one?
-            settle0 = bool(marks[i0]["op"].get("settle")) or any(
+            settle0 = by_target or (not from_target and bool(marks[i0]["op"].get("settle"))) or any(
                 marks[k]["op"].get("op") == "end" or marks[k]["op"].get("dt") or marks[k]["op"].get("settle")
                 for k in range(i0 + 1, end_index + 1))
             enters = [t for (t, kind, idx, _a) in log[pos0:end_pos] if idx == j and kind == "enter"]
@@ -236,10 +325,13 @@ def judge(ctx, case, log, marks, wit) -> None:
                                   f"task {j} ({opt}): target called {len(enters)}x after {cause} at t={t0 - 1000.0:.3f}")
             elif wmode == "judged-start":
                 first = t0 + spec["wbs"]
-                if spec["wbs"] and abs(first - end_t) < 1e-4:
+                if by_target:
+                    must = True  # closed by an action of the target itself: it evidently ran
+                elif (spec["wbs"] and abs(first - end_t) < 1e-4) or (from_target and spec["wbs"] == 0 and end_t - t0 < 1e-4):
+                    # two timers in one instant / a start from inside the target and the next operation in one instant
                     ctx.count("windows_ambiguous_timer_tie_skipped")
                     return
-                if spec["wbs"] == 0:
+                elif spec["wbs"] == 0:
                     must = settle0  # settle0: the loop got a turn before the window was closed
                 else:
                     must = first < end_t - 1e-4
@@ -260,9 +352,30 @@ def judge(ctx, case, log, marks, wit) -> None:
                     ctx.violation(f"target-called-before-wait-before-start-after-{cause}", dict(wit, task=j, enters=[e - 1000.0 for e in enters], window=(t0 - 1000.0, end_t - 1000.0)),
                                   f"task {j} ({opt}): target called before wait_before_start elapsed after {cause}")
 
+        prev_pos = 0
         for mi, m in enumerate(marks):
             op = m["op"]
             kind = op.get("op")
+            # what the target did to its own task since the previous operation (start_task / remove_task from inside)
+            for lp in range(prev_pos, m["pos"]):
+                lt, lkind, lidx, _x = log[lp]
+                if lidx != j or lkind not in ("rearm", "selfremove"):
+                    continue
+                state_then = marks[mi - 1]["state"] if mi else None
+                if lkind == "selfremove":
+                    if mode == "judged-start":
+                        close_window(lp, lt, "remove_task-from-target", mi - 1, by_target=True)
+                    registered = False
+                    mode = "expect-none"
+                    win_start = (lp + 1, lt, max(mi - 1, 0), "expect-none", "remove_task-from-target")
+                elif mode == "judged-start":
+                    close_window(lp, lt, "start_task-from-target", mi - 1, by_target=True)
+                    if state_then == CONNECTED:
+                        win_start = (lp + 1, lt, max(mi - 1, 0), "judged-start", "start_task-from-target")
+                    else:
+                        mode = "unjudged"
+                        win_start = (lp + 1, lt, max(mi - 1, 0), "unjudged", None)
+            prev_pos = m["pos"]
             relevant = False
             new_mode = None
             cause = None
@@ -338,7 +451,10 @@ def run(ctx):
     ctx.require("target_enters", "windows_expect_no_target_call", "windows_expect_target_call", "started_once_as_expected",
                 "reconnections_of_restart_tasks", "losses_with_restart_task_registered", "no_instance_after_connection-loss",
                 "no_instance_after_remove_task", "no_instance_after_registry-stop", "settle_points_checked",
-                "user_start_while_disconnected_not_judged")
+                "user_start_while_disconnected_not_judged", "cancellation_swallowed_then_ended_normally",
+                "rearm_from_inside_target", "selfremove_from_inside_target", "target_raised",
+                "target_finished_in_the_instant_of_a_state_change", "no_instance_after_remove_task-from-target",
+                "behaviour_swallow", "behaviour_swallow_await", "behaviour_rearm", "behaviour_selfremove", "behaviour_raises")
     n = ctx.scale(3000, 240000)
     for i in range(n):
         if ctx.mine(i):
